@@ -27,6 +27,8 @@ type c08Case struct {
 	Names   string `json:"names"`   // declared | undeclared | mixed
 	Handler string `json:"handler"` // none | skip | exit | retry
 	Retries int    `json:"retries"` // handler.Retries
+	Seq     []int  `json:"seq,omitempty"`    // retry: a budget of its own for every failing answer (the last one repeats)
+	Second  int    `json:"second,omitempty"` // retry: once T succeeded, the next task on the same token always fails with this retry budget + 1 (0 = not exercised)
 	Succeed int    `json:"succeed"` // attempt that succeeds (1-based); 0 = never
 	Extra   bool   `json:"extra"`   // one more Do (with results) after the deciding one
 	Reps    int    `json:"reps"`
@@ -99,6 +101,30 @@ func c08Cases(tier string, seed uint64) []fw.Case {
 					cs = append(cs, fw.MkCase("errors", &c))
 				}
 			}
+		}
+	}
+	// retry answers whose budgets differ from answer to answer, and a second failing task on the same token
+	var seqs [][]int
+	for a := 0; a <= 3; a++ {
+		for b := 0; b <= 3; b++ {
+			if a != b {
+				seqs = append(seqs, []int{a, b})
+			}
+			for d := 0; d <= 3; d++ {
+				if !(a == b && b == d) {
+					seqs = append(seqs, []int{a, b, d})
+				}
+			}
+		}
+	}
+	for si, sq := range seqs {
+		for _, succeed := range []int{0, 2, 3, 4} {
+			c := c08Case{Kind: "errors", Handler: "retry", Seq: sq, Succeed: succeed, Reps: 1}
+			if succeed > 0 {
+				c.Second = (si+succeed)%4 // 0 = none, else budget Second-1
+			}
+			c.Name = fmt.Sprintf("errors/retry-seq%v-s%d-second%d", sq, succeed, c.Second)
+			cs = append(cs, fw.MkCase("errors", &c))
 		}
 	}
 	return fw.Number(cs)
@@ -394,6 +420,9 @@ func c08Errors(c *c08Case, env *fw.Env, v *fw.V) {
 	}
 	defer in.Cancel()
 	cls := fmt.Sprintf("%s-retries=%d", c.Handler, c.Retries)
+	if len(c.Seq) > 0 {
+		cls = "retry-varying-budget"
+	}
 	quiet := func(what string) bool {
 		q := in.Quiesce(step.Watchdog)
 		v.Add("qpoints", 1)
@@ -417,6 +446,15 @@ func c08Errors(c *c08Case, env *fw.Env, v *fw.V) {
 	errAnswers := 0
 	attempts := 0
 	succeeded := false
+	budget := func(attempt int) int {
+		if len(c.Seq) == 0 {
+			return c.Retries
+		}
+		if attempt-1 < len(c.Seq) {
+			return c.Seq[attempt-1]
+		}
+		return c.Seq[len(c.Seq)-1]
+	}
 	for attempt := 1; attempt <= 8; attempt++ {
 		var req *drive.Req
 		for _, r := range in.Pending() {
@@ -440,7 +478,7 @@ func c08Errors(c *c08Case, env *fw.Env, v *fw.V) {
 			default:
 				ch := make(chan bpmn.ErrHandler, 1)
 				mode := map[string]bpmn.ErrHandleMode{"skip": bpmn.SkipMode, "exit": bpmn.ExitMode, "retry": bpmn.RetryMode}[c.Handler]
-				ch <- bpmn.ErrHandler{Mode: mode, Retries: int32(c.Retries)}
+				ch <- bpmn.ErrHandler{Mode: mode, Retries: int32(budget(attempt))}
 				in.Answer(req, bpmn.DoWithErrHandle(e, ch))
 			}
 		}
@@ -471,13 +509,18 @@ func c08Errors(c *c08Case, env *fw.Env, v *fw.V) {
 	case c.Handler == "exit":
 		wantContinue = false
 	case c.Handler == "retry":
-		max := c.Retries + 1
-		if c.Succeed >= 1 && c.Succeed <= max {
-			wantRequests = c.Succeed
-			wantContinue = true
-		} else {
-			wantRequests = max
-			wantContinue = false
+		// the k-th request's failing answer grants budget(k) additional requests in total:
+		// the task is requested again only while k-1 < budget(k)
+		wantRequests, wantContinue = 0, false
+		for k := 1; k <= 8; k++ {
+			wantRequests = k
+			if c.Succeed == k {
+				wantContinue = true
+				break
+			}
+			if k-1 >= budget(k) {
+				break
+			}
 		}
 	}
 	gotRequests := in.Count("Task", "T")
@@ -506,6 +549,31 @@ func c08Errors(c *c08Case, env *fw.Env, v *fw.V) {
 	}
 	if !wantContinue && cont != 0 {
 		v.Violate("continuation", cls, "token should stop at the task (mode %s retries %d success %d), pending %v", c.Handler, c.Retries, c.Succeed, in.PendingActs())
+	}
+	// a second task on the same token that always fails: requested at most (its own budget + 1) times, at least once
+	if c.Second > 0 && wantContinue && cont == 1 && !v.Violated() {
+		second := ""
+		for n := 0; n < 8; n++ {
+			var req *drive.Req
+			for _, r := range in.Pending() {
+				if r.Act == "NA" || r.Act == "NB" {
+					req = r
+				}
+			}
+			if req == nil {
+				break
+			}
+			second = req.Act
+			ch := make(chan bpmn.ErrHandler, 1)
+			ch <- bpmn.ErrHandler{Mode: bpmn.RetryMode, Retries: int32(c.Second - 1)}
+			in.Answer(req, bpmn.DoWithErrHandle(errors.New("boom2"), ch))
+			if !quiet("after failing the second task") {
+				return
+			}
+		}
+		if got := in.Count("Task", second); got < 1 || got > c.Second {
+			v.Violate("retry-count", cls+"-second-task", "second task %s on the same token always fails with retry budget %d: requested %d times, allowed 1..%d (first task's budgets %v)", second, c.Second-1, got, c.Second, c.Seq)
+		}
 	}
 	if c.Extra {
 		if r1, ok := in.Vars()["r1"]; ok && fmt.Sprint(r1) == "555" {
@@ -542,7 +610,7 @@ func init() {
 			v.Nontrivial = true
 			return v
 		},
-		Rule:        "answer histories per request: 1..3 Do calls x sequential / concurrent behind a barrier x payload {results, data objects, both} x names {declared, undeclared, mixed} x hooks off/on (concurrent ones repeated 30/300 times), checked with a porcupine write-once-register model over the Do call/return history and the observed effective marker, plus blocked-caller census, declared-only storage, downstream visibility (gateway branch, next task's properties and data inputs) and late Do; error histories: handler {none, skip, exit, retry n=0..3} x success on attempt 0..4 x extra Do; all cases non-trivial; distinct = descriptor hash",
+		Rule:        "answer histories per request: 1..3 Do calls x sequential / concurrent behind a barrier x payload {results, data objects, both} x names {declared, undeclared, mixed} x hooks off/on (concurrent ones repeated 30/300 times), checked with a porcupine write-once-register model over the Do call/return history and the observed effective marker, plus blocked-caller census, declared-only storage, downstream visibility (gateway branch, next task's properties and data inputs) and late Do; error histories: handler {none, skip, exit, retry n=0..3} x success on attempt 0..4 x extra Do; retry answers whose budget differs from answer to answer (all budget sequences of length 2..3 over 0..3; the k-th failing answer with budget b re-requests only while k-1 < b) x success attempt, followed by a second always-failing task on the same token (requested 1..budget+1 times); all cases non-trivial; distinct = descriptor hash",
 		Exhaustive:  func(string) bool { return true },
 		Assumptions: []string{"each Do carries a unique marker for a declared field so the effective answer identifies the call that won"},
 	})
